@@ -15,7 +15,7 @@ RULE = (
     "fixes the number N_f of calls made inside Transition.sample per function. Then for every function f, call index "
     "k < N_f (all up to a cap in thorough; first / last / strided in quick) and value fault {NaN, +inf, -inf} the chain "
     "is re-run with that single call perturbed; exception faults {ValueError, numpy LinAlgError, mici LinAlgError} are "
-    "injected only while a wrapped solver callable is on the stack; forced non-convergence = solver max_iters=1. "
+    "injected only while a wrapped solver callable is on the stack; forced non-convergence = solver max_iters 1-4. "
     "Oracle: sample returns; returned state finite, its position is the start or the output of a step that returned "
     "(and on the manifold when constrained); exceptions leaving integrator.step are mirrored by the statistics flags with accept_stat 0; a NaN "
     "energy gives acceptance 0 / divergence; the remaining iterations run; solver wrappers let only ConvergenceError "
@@ -54,7 +54,7 @@ def gen_cases(tier: str, seed: int):
         if "n_inner_step" in ispec:
             ispec["n_inner_step"] = int(rng.integers(1, 3))
         yield {"spec": spec, "ispec": ispec, "transition": ["static", "multinomial", "slice", "random"][i % 4],
-               "frac": float(rng.uniform(0.1, 0.5)), "forced": bool(i % 9 == 8), "seed": [seed, int(rng.integers(0, 2**31))],
+               "frac": float(rng.uniform(0.1, 0.5)), "forced": bool(i % 5 == 4), "seed": [seed, int(rng.integers(0, 2**31))],
                "max_per_fn": {"quick": 5, "thorough": 40}[tier]}
 
 
@@ -108,7 +108,7 @@ def build(case, obs, ctx, forced=False):
     q, p = m.random_point(rng)
     ispec["step_size"] = case["frac"] / intgen.frequency(m, q)
     if forced:
-        ispec["solver_kwargs"] = dict(ispec.get("solver_kwargs", {}), max_iters=1)
+        ispec["solver_kwargs"] = dict(ispec.get("solver_kwargs", {}), max_iters=forced)
     integ = zoo.make_integrator(m, ispec)
 
     def hook(name, idx, out):  # noqa: ARG001
@@ -314,12 +314,13 @@ def run_case(case, obs) -> None:
     obs.count("fault_free_calls", sum(counts.values()))
     has_solver = case["ispec"]["int"] in ("implicit_leapfrog", "implicit_midpoint", "constrained")
     if case["forced"] and has_solver:
-        out, _ = run_chain(case, obs, None, forced=True)
-        cls = judge(obs, case, None, out, "forced non-convergence (max_iters=1)", out["constraint"])
-        obs.count("forced_nonconvergence_runs")
-        n_conv = sum(1 for rec in out["iters"] for (exc, _b, _t) in rec["steps"] if exc == "ConvergenceError")
-        obs.count("forced_convergence_errors_seen", n_conv)
-        obs.token("forced", tkind, case["spec"]["sys"], case["ispec"]["int"], case["ispec"].get("solver"), cls)
+        for mi in (1, 2, 3, 4):
+            out, _ = run_chain(case, obs, None, forced=mi)
+            cls = judge(obs, case, None, out, f"forced non-convergence (max_iters={mi})", out["constraint"])
+            obs.count("forced_nonconvergence_runs")
+            n_conv = sum(1 for rec in out["iters"] for (exc, _b, _t) in rec["steps"] if exc == "ConvergenceError")
+            obs.count("forced_convergence_errors_seen", n_conv)
+            obs.token("forced", tkind, case["spec"]["sys"], case["ispec"]["int"], case["ispec"].get("solver"), cls, mi)
     kinds = ["nan", "+inf", "-inf"] + (["ValueError", "numpy.LinAlgError", "mici.LinAlgError"] if has_solver else [])
     for fn, n in sorted(counts.items()):
         idxs = sorted({0, n - 1, n // 2} | set(range(1, n, max(1, n // case["max_per_fn"]))))[: case["max_per_fn"] + 3]
